@@ -370,8 +370,12 @@ def cdsReaderClauses (fl : Flavor) (trans : Bool) (seq : Option Str) (t : Tx) (r
 def geneReaderClauses (fl : Flavor) (trans : Bool) (seq : Option Str) (ans : List Rec) (g : Gene) : List String :=
   g.txs.flatMap fun t =>
     if t.writesCds then
+      -- several records can stand for `t` (isoforms with identical CDS blocks and compatible identifiers): one of
+      -- them must read correctly; the first one's violations are reported otherwise
       match cdsHits ans g t with
-      | r :: _ => cdsReaderClauses fl trans seq t r
+      | r :: rest =>
+        if (r :: rest).any (fun x => (cdsReaderClauses fl trans seq t x).isEmpty) then []
+        else cdsReaderClauses fl trans seq t r
       | [] => []
     else []
 
